@@ -99,6 +99,23 @@ pub fn run(ctx: &mut Ctx) {
         ];
         for fam in &families { for b in 0..512u32 { closure_case(ctx, fam, &TOpts::from_bits(b), "enum_payload_always_null"); } }
     }
+    // directed family: tuples (and tuple structs, tuple variants) of DIFFERENT lengths at one position - what an untagged enum with
+    // tuple variants of different arity presents: the elements a shorter tuple lacks are missing values of the longer ones
+    {
+        use crate::arrgen::IK;
+        let i = |z: i128| Val::Int(IK::I32, z);
+        let rec = |v: Val| Val::Struct(vec![("t".into(), v)], 0);
+        let families: Vec<Vec<Val>> = vec![
+            vec![rec(Val::Tuple(vec![i(1), i(2)])), rec(Val::Tuple(vec![i(3)]))],
+            vec![rec(Val::Tuple(vec![i(3)])), rec(Val::Tuple(vec![i(1), Val::Str("x".into())]))],
+            vec![rec(Val::Tuple(vec![])), rec(Val::Tuple(vec![i(1), i(2), i(3)])), rec(Val::Tuple(vec![i(4)]))],
+            vec![rec(Val::TupleStruct(vec![i(1), i(2)])), rec(Val::Tuple(vec![i(3)])), rec(Val::None)],
+            vec![rec(Val::Seq(vec![Val::Tuple(vec![i(1)]), Val::Tuple(vec![i(1), Val::Bool(true)])]))],
+            vec![rec(Val::TupleVariant(0, "V0".into(), vec![i(1), i(2)])), rec(Val::TupleVariant(0, "V0".into(), vec![i(1)]))],
+            vec![rec(Val::Some(Box::new(Val::Tuple(vec![i(1), Val::Tuple(vec![i(2), i(3)])])))), rec(Val::Some(Box::new(Val::Tuple(vec![i(1), Val::Tuple(vec![i(2)])]))))],
+        ];
+        for fam in &families { for b in [0u32, 1, 2, 4, 128, 511] { closure_case(ctx, fam, &TOpts::from_bits(b), "tuples_of_different_length"); } }
+    }
     // all 2^9 option sets on a fixed family
     let fam = if ctx.thorough { 40 } else { 6 };
     let mut frng = crate::rng::Rng::new(777);
